@@ -374,18 +374,52 @@ def rule_semantics(P) -> RuleResult:
     for name in want:
         if name in rules and name not in sem.methods:
             res.fail(f'{sem.fq}.{name}', 'semantics:missing', f'terminal rule `{name}` has no semantic action: the literal stays a string')
-    # string: one delimiter character stripped at each end; delimiters are single characters
-    sfi = sem.methods.get('string')
-    if sfi is not None:
-        rets = [n for n in ast.walk(sfi.node) if isinstance(n, ast.Return)]
-        ok = len(rets) == 1 and isinstance(rets[0].value, ast.Subscript) and unparse(rets[0].value.slice) == '1:-1'
-        if not ok:
-            res.fail(sfi.fq, 'semantics:string-strip', 'a string literal is its text without the two delimiters: value[1:-1]', loc(sfi))
-        else:
-            res.ok({'action': 'string', 'strips': 'one delimiter at each end'})
-    b = sem.methods.get('boolean')
-    if b is not None and "== 'TRUE'" not in unparse(b.node) and '.upper()' not in unparse(b.node):
-        res.info('boolean action shape not recognised (not judged)')
+    # the literal actions on concrete texts (term interpreter): the value a literal stands for
+    from ..symex import Engine as _E, Sym as _S, T as _T, show as _sh
+    vectors = {
+        'string': [("'abc'", 'abc'), ('"abc"', 'abc'), ("''", ''), ("'a\"b'", 'a"b'), ("' x '", ' x '), ('"it\'s"', "it's"),
+                   ("'\"q\"'", '"q"'), ('"\'q\'"', "'q'"), ("'\"'", '"')],
+        'boolean': [('TRUE', True), ('FALSE', False)],
+        'null': [('NULL', None)],
+        'integer': [('42', 42), ('007', 7), ('0', 0)],
+        'identifier': [('Account', 'account'), ('payee', 'payee'), ('COST_NUMBER', 'cost_number')],
+    }
+    for name, vecs in vectors.items():
+        fi = sem.methods.get(name)
+        if fi is None:
+            continue
+        good = True
+        for text_, want_v in vecs:
+            for p_ in _E(P).paths(fi, {'self': _S('SEMANTICS'), fi.params[1]: text_}):
+                got = p_.value if p_.outcome == 'return' else f'{p_.outcome} {p_.value[0] if p_.value else ""}'
+                if p_.decisions or not (got is want_v or (type(got) is type(want_v) and got == want_v)):
+                    good = False
+                    res.fail(fi.fq, 'semantics:string-strip' if name == 'string' else f'semantics:value:{name}',
+                             f'the {name} literal `{text_}` stands for {want_v!r}; the action gives {_sh(got) if not isinstance(got, str) else repr(got)}'
+                             + (' (a string literal is its text without the two delimiters)' if name == 'string' else ''), loc(fi))
+                    break
+            if not good:
+                break
+        if good:
+            res.ok({'action': name, 'vectors': len(vecs)})
+    for name, callee, arg_check in (('decimal', 'decimal.Decimal', None), ('date', None, '%Y-%m-%d')):
+        fi = sem.methods.get(name)
+        if fi is None:
+            continue
+        TEXT = _S('LITERAL_TEXT')
+        for p_ in _E(P).paths(fi, {'self': _S('SEMANTICS'), fi.params[1]: TEXT}):
+            v = p_.value
+            shown = _sh(v)
+            if name == 'decimal':
+                good = isinstance(v, _T) and v.op == 'call' and str(v.args[0]).endswith('Decimal') and v.args[1] == (TEXT,) and not v.args[2]
+                want_s = 'decimal.Decimal(text)'
+            else:
+                good = shown.replace('"', "'") == "datetime.datetime.strptime(LITERAL_TEXT, '%Y-%m-%d').date()"
+                want_s = "datetime.datetime.strptime(text, '%Y-%m-%d').date()"
+            if p_.decisions or p_.outcome != 'return' or not good:
+                res.fail(fi.fq, f'semantics:value:{name}', f'the {name} literal stands for {want_s}; the action gives `{shown[:100]}`', loc(fi))
+            else:
+                res.ok({'action': name, 'value': want_s})
     return res
 
 
@@ -949,4 +983,58 @@ def rule_keywords(P) -> RuleResult:
         res.fail('grammar:@@parseinfo', 'keywords:parseinfo', 'AST nodes need parse positions (@@parseinfo :: True): expression-text names depend on them')
     else:
         res.ok({'parseinfo': True})
+    return res
+
+
+# ----------------------------------------------------------------------
+# R-CLAUSEORDER (C06): the clauses of a statement come in the order of the published language
+
+CLAUSE_ORDER = {
+    # rule: the captured fields in the order their clauses are written
+    'select': ['distinct', 'targets', 'from_clause', 'where_clause', 'group_by', 'order_by', 'pivot_by', 'limit'],
+    'balances': ['summary_func', 'from_clause', 'where_clause'],
+    'journal': ['account', 'summary_func', 'from_clause'],
+    'print': ['from_clause'],
+    'groupby': ['columns', 'having'],
+    'order': ['column', 'ordering'],
+    'pivotby': ['columns'],
+}
+
+
+def _capture_sequence(e):
+    """Capture names in textual (left to right) order of the rule expression, first occurrence of each."""
+    G = _G()
+    out = []
+
+    def walk(x):
+        if isinstance(x, (G.Named, G.NamedList)):
+            nm = x.name.rstrip('_')
+            if nm not in out:
+                out.append(nm)
+        for c in _children(x):
+            walk(c)
+    walk(e)
+    return out
+
+
+def rule_clauseorder(P) -> RuleResult:
+    res = RuleResult('R-CLAUSEORDER')
+    res.exhaustive = True
+    text, model, _ = _grammar(P.repo)
+    rules = {r.name: r for r in model.rules}
+    for name, want in CLAUSE_ORDER.items():
+        r = rules.get(name)
+        if r is None:
+            raise AnalysisError(f'anchor vanished: grammar rule {name}')
+        got = _capture_sequence(r.exp)
+        if got == want:
+            res.ok({'rule': name, 'clauses': want})
+        elif sorted(got) == sorted(want):
+            moved = [a for a, b in zip(got, want) if a != b]
+            res.fail(f'grammar:{name}', f'clauseorder:{name}', f'rule {name}: the clauses of the statement are written in the order '
+                     f'{want}; the grammar reads them in the order {got} ({moved[0]} moved): statements in the published clause order '
+                     f'are rejected')
+        else:
+            res.fail(f'grammar:{name}', f'clauseorder:{name}:fields', f'rule {name}: the statement has the clauses {want}; the grammar '
+                     f'captures {got}')
     return res
